@@ -6,7 +6,7 @@ import GMGModel.Setup
 `rref` : a vector that may be read (existing level; a right-hand side only on a built level).
 -/
 namespace Setup
-open Cycle
+open MGCycle
 
 /-- a writable work vector: existing level, not a right-hand side -/
 def wref (c : Cfg) (r : Ref) : Prop := r.1 < c.levels ∧ r.2 ≠ Buf.rhs
